@@ -186,3 +186,9 @@ func readValue(k Kind, p unsafe.Pointer) (uint64, error) {
 }
 
 func ptrOf[T any](p *T) unsafe.Pointer { return unsafe.Pointer(p) }
+
+// IDOf builds the component ID with the given number (ecs.ID has a single unexported uint8 field).
+func IDOf(n uint8) ecs.ID { return idOf(n) }
+
+// IDNum returns the number of a component ID.
+func IDNum(id ecs.ID) uint8 { return idNum(id) }
